@@ -437,15 +437,22 @@ def layout(ctx):
     # hex chooses the short form only for opaque colours
     fn = cb.cls.getters.get("hex")
     ctx.need(fn is not None, "R13.3", "Color.hex not found")
-    ok = False
-    for s in ast.walk(fn):
-        if isinstance(s, ast.If) and isinstance(s.test, ast.Compare) and ast.unparse(s.test.left) == "self.alpha" and isinstance(s.test.ops[0], ast.Eq):
-            c = s.test.comparators[0]
-            if isinstance(c, ast.Constant) and c.value == 255:
-                body_ret = [x for x in s.body if isinstance(x, ast.Return)]
-                else_ret = [x for x in s.orelse if isinstance(x, ast.Return)]
-                ok = bool(body_ret and else_ret and ast.unparse(body_ret[0].value) == "self.hexrgb" and ast.unparse(else_ret[0].value) == "self.hexa")
-    ctx.ob("R13.3", "Color.hex:form", ok, "", fn.lineno, "hex must use #rrggbb exactly when alpha is 0xFF and #rrggbbaa otherwise (Color(c.hex) == c)")
+    from ..pe import PE, K, Raised
+    from ..algebra import RF as _RF
+    got = {}
+    for opaque in (True, False):
+        def oracle(pe, test, opaque=opaque):
+            if isinstance(test, ast.Compare) and len(test.ops) == 1 and isinstance(test.ops[0], (ast.Eq, ast.NotEq)):
+                sides = [test.left, test.comparators[0]]
+                if any(attr_chain(x) == ["self", "alpha"] for x in sides) and any(isinstance(x, ast.Constant) and x.value == 255 for x in sides):
+                    return opaque if isinstance(test.ops[0], ast.Eq) else not opaque
+            return None
+
+        pe = PE(ctx.m, "R13.3", "Color.hex", oracle=oracle)
+        res = pe.run([x for x in fn.body if not (isinstance(x, ast.Expr) and isinstance(x.value, ast.Constant))])
+        got[opaque] = ".".join(attr_chain(res.value) or ["?"]) if res is not None and res.value is not None else None
+    ok = got.get(True) == "self.hexrgb" and got.get(False) == "self.hexa"
+    ctx.ob("R13.3", "Color.hex:form", ok, "opaque -> %s, translucent -> %s" % (got.get(True), got.get(False)), fn.lineno, "hex must use #rrggbb exactly when alpha is 0xFF and #rrggbbaa otherwise (Color(c.hex) == c)")
 
 
 def rgb_to_int_layout(ctx):
